@@ -7,22 +7,100 @@ except Exception:                                    # seeds file is optional
     ATTR_SEEDS, NLRI_SEEDS = [], []
 
 CONFIG = dict(
-    level_text="(filled in below)",
-    level_note="(filled in below)",
+    level_text="Kernel-checked Lean theorems about a model of daemon/src/convert.rs (attr_to_api / attr_from_api / "
+               "read_extcom / write_extcom / nlri_to_api / net_from_api), of the wire decoder that produces the values they "
+               "are applied to (parse_message attribute loop + Attribute::decode, IPv4/IPv6/labeled/VPN NLRI decoders) and of "
+               "the consumers a stored value later meets (Attribute::encode, as_path_length, as_path_origin, as_path_prepend, "
+               "the accessors of best-path comparison, the two-octet-AS encoder helpers, Nlri::encode): every decoded value "
+               "satisfies the structural invariants WF (decode_wf); every WF value with the canonical flags byte converts "
+               "to its API form and back to itself (roundtrip_attr, roundtrip_nlri); attr_from_api / net_from_api never "
+               "panic and accept only WF values (from_api_wf); WF values cannot panic any modelled consumer (wf_safe_*); and "
+               "the master theorem that the C17 reference checker accepts every model run.  The model is tied to the real "
+               "code by running both on the same generated cases (wire bytes through the real PeerCodec, prost API messages "
+               "through the real convert functions, then Table::insert / apply_import / encode_to under catch_unwind) and "
+               "diffing every observation, with the reference checker as oracle on the real observations.",
+    level_note="Trusted: Lean kernel; axioms propext/Classical.choice/Quot.sound; the hand-written model (checked only by the "
+               "correspondence stream); std's Ipv4Addr/Ipv6Addr Display/FromStr (address strings are abstract in the model); "
+               "harness glue building UPDATE frames and prost messages.  Proved only for the canonical flags byte (open "
+               "finding roundtrip-flags-differ).  Modelled, not verified: kinds outside the model (BGP-LS TLVs, tunnel-encap, "
+               "prefix-SID, flowspec, EVPN, MUP, SR-policy, RTC) are explored implementation-only; attribute size limits "
+               "(u16 length sums, 4096-byte messages); label stacks that wrap the one-octet NLRI bit count (S7).",
     lean_modules=["Rbgp.Api.Props"],
-    theorems=[],
+    theorems=[
+        "Rbgp.Api.Props.check_run_ok",
+        "Rbgp.Api.Props.roundtrip_attr",
+        "Rbgp.Api.Props.roundtrip_decoded",
+        "Rbgp.Api.Props.roundtrip_unrecognised",
+        "Rbgp.Api.Props.roundtrip_nlri",
+        "Rbgp.Api.Props.flags_not_carried",
+        "Rbgp.Api.Props.from_api_wf",
+        "Rbgp.Api.Props.from_api_wf_nlri",
+        "Rbgp.Api.Props.accepted_listed_unchanged",
+        "Rbgp.Api.Props.from_api_never_panics",
+        "Rbgp.Api.Props.net_from_api_never_panics",
+        "Rbgp.Api.Props.wf_safe_cmp",
+        "Rbgp.Api.Props.wf_safe_policy",
+        "Rbgp.Api.Props.wf_safe_encode",
+        "Rbgp.Api.Props.wf_safe",
+        "Rbgp.Api.Props.wf_safe_encode_nlri",
+        "Rbgp.Api.Props.accepted_is_safe",
+        "Rbgp.Api.Props.decode_wf",
+        "Rbgp.Api.Props.decode_wf_nlri",
+        "Rbgp.Api.Props.s27_raw_as_path_accepted",
+        "Rbgp.Api.Props.s27_raw_as_path_crashes",
+        "Rbgp.Api.Props.s27_raw_local_pref_crashes",
+        "Rbgp.Api.Props.s27_out_of_range_accepted",
+        "Rbgp.Api.Props.s27_roundtrip_failures",
+        "Rbgp.Api.Props.s27_labeled_prefix_crashes",
+    ],
     harness=dict(kind="daemon", test="verif_main_hook::c17::verif_main"),
     profiles=["debug"],
     n_quick=4000, n_thorough=200000, shards=12,
-    nontrivial_re=r"attr-obs|nlris",
-    rule="",
-    expect_tokens=[],
-    trusted_base=[],
-    modelled_not_verified=[],
-    assumptions=[],
     impl_only_re=r"^\(x ",
-    claimed=False,
-    na_reason="under construction",
+    nontrivial_re=r"attr-obs|nlris|\(x ",
+    rule="five streams from one PRNG: (1) attribute values on the wire for every modelled type code (ORIGIN, AS_PATH, NEXT_HOP, "
+         "MED, LOCAL_PREF, ATOMIC_AGGREGATE, AGGREGATOR 2/4-octet, COMMUNITIES, ORIGINATOR_ID, CLUSTER_LIST, EXT/LARGE "
+         "COMMUNITIES incl. every typed extended-community shape, AS4_PATH, AS4_AGGREGATOR, AIGP, unknown codes) with "
+         "canonical / PARTIAL / EXTENDED / low-bit / wrong-class flags and 1-in-6 malformed values, decoded by the real "
+         "PeerCodec; (2) API attribute messages of every modelled kind with out-of-range enums, >255 AS numbers per "
+         "segment, malformed address text, missing / unsupported oneof variants and raw (Unknown) messages for typed, "
+         "untyped and unknown codes; (3) IPv4/IPv6/labeled/VPN NLRI bytes (1-3 entries, mutations) through the real "
+         "UPDATE parser; (4) API prefixes with bad lengths, label stacks of 0..40 labels, bad RDs; (5) impl-only "
+         "exploration of BGP-LS / tunnel-encap / prefix-SID attributes and EVPN / flowspec / MUP / SR-policy / RTC / LS "
+         "NLRI from GoBGP wire fixtures (pristine: exact round trip; mutated: no panic + display stable).  Values are "
+         "drawn from small colliding domains (ASNs 0,1,23456,65001,65535,65536,2^32-1; boundary lengths 0,254,255). "
+         "non-trivial = a value was stored/accepted and fully observed; distinct = distinct case line",
+    expect_tokens=["(attr 1 ", "(attr 2 ", "(attr 4 ", "(attr 5 ", "(attr 6 ", "(attr 7 ", "(attr 8 ", "(attr 9 ", "(attr 10 ",
+                   "(attr 16 ", "(attr 32 ", "(attr 26 ", "(attr 3 ", "(opaque x", "not-stored rejected", "not-stored dropped",
+                   "(from err)", "(decode err)", "(v4 ", "(v6 ", "(lv4 ", "(lv6 ", "(vpn4 ", "(vpn6 ", "(rd2 ", "(rd-ip ", "(rd4 ",
+                   "two-as", "ip4-as", "four-as", "(mup ", "(rate ", "(action ", "redir2", "(remark ", "redir-ip", "redir4",
+                   "ec-unknown", "(ip6 ", "(x ok)", "(x fail", "(ok (some ", "(ok none)"],
+    trusted_base=["model Rbgp/Api/Model.lean of daemon/src/convert.rs (modelled kinds), packet/src/bgp.rs (attribute loop of "
+                  "parse_message, Attribute::decode/encode, AS_PATH walkers), labeled.rs/vpn.rs/mpls.rs/rd.rs, and the accessors "
+                  "of impl Ord for RibEntry in table/src/lib.rs",
+                  "std::net::{Ipv4Addr,Ipv6Addr} Display/FromStr round trip (address text is abstract in the model; the harness "
+                  "renders/classifies it with std)",
+                  "harness/daemon/c17.rs: builds UPDATE frames / prost messages from the case term and prints the observation"],
+    theorem_backed=["ORIGIN", "AS_PATH", "NEXT_HOP (API side)", "MULTI_EXIT_DISC", "LOCAL_PREF", "ATOMIC_AGGREGATE", "AGGREGATOR",
+                    "COMMUNITIES", "ORIGINATOR_ID", "CLUSTER_LIST", "EXTENDED_COMMUNITIES (all typed shapes + raw)",
+                    "LARGE_COMMUNITIES", "AIGP / MP_REACH / MP_UNREACH as raw", "unrecognised optional transitive attributes",
+                    "IPv4 / IPv6 prefix", "labeled IPv4 / IPv6 prefix", "VPNv4 / VPNv6 prefix + route distinguisher"],
+    hypothesis_backed=["BGP-LS attribute TLVs", "TUNNEL_ENCAP", "PREFIX_SID", "FlowSpec v4/v6/VPN NLRI", "EVPN NLRI", "MUP NLRI",
+                       "SR-policy NLRI", "RTC NLRI", "BGP-LS NLRI", "api::MpReach message (local_path nexthop extraction)"],
+    modelled_not_verified=["kinds listed under hypothesis_backed: explored implementation-only against the round-trip / "
+                           "no-panic oracle (pristine GoBGP fixtures must round-trip exactly; mutated ones must not panic and "
+                           "must display stably)",
+                           "GrpcService::local_path / list_path assembly (NEXT_HOP, ORIGINATOR_ID, CLUSTER_LIST are stripped on "
+                           "add_path; ListPath shows no next hop at all)",
+                           "attribute / message size limits: u16 attr_len accumulation in do_encode, bin.len() as u16, 4096-byte "
+                           "messages (C04)",
+                           "label stacks deep enough to wrap the one-octet bit arithmetic of labeled.rs / vpn.rs (S7, C03/C04): "
+                           "excluded by the noWrap hypothesis and not generated on the wire stream",
+                           "SingleAsPathMatch and regex community matching in policy evaluation (C14); only AsPathLength and the "
+                           "as-prepend action are driven here",
+                           "f32 bit patterns of the traffic-rate extended community are carried as u32 bits"],
+    assumptions=["a gRPC request is a prost message whose scalar fields are within their protobuf widths (u32 / i32 / bytes)"],
+    claimed=True,
 )
 
 # ----------------------------------------------------------------------------- helpers
